@@ -236,7 +236,7 @@ manifest = {
     ],
     "checks": checks,
     "not_applicable": na,
-    "notes": "Build-profile dimension: ./run first runs the quick tier of the check from a build with debug assertions enabled (cargo profile verif-da; quick tier: C04 C05 C06 C08 C09 C10 C14 C15 C16 C17 C18 C20, thorough tier: every check), then the main pass from the release build. Every check is `./run <id> <tier>`; it rebuilds the check binary (and json-syntax with the hooks on) from /repo's working tree with cargo, offline, into /verif/.target. Known findings are listed in /verif/known_findings.json.",
+    "notes": "Build-profile and thread-state dimensions: ./run first runs the quick tier of the check from a build with debug assertions enabled, every work item executed from a destructor while its thread unwinds from a (caught) panic, so that std::thread::panicking() is true (cargo profile verif-da; quick tier: C04 C05 C06 C08 C09 C10 C14 C15 C16 C17 C18 C20, thorough tier: every check), then the main pass from the release build. Every checker runs under a watchdog: a library call that does not return is reported as a violation. Every check is `./run <id> <tier>`; it rebuilds the check binary (and json-syntax with the hooks on) from /repo's working tree with cargo, offline, into /verif/.target. Known findings are listed in /verif/known_findings.json.",
 }
 json.dump(manifest, open(f"{root}/MANIFEST.json", "w"), indent=1)
 print("claimed:", [c["property_id"] for c in checks])
